@@ -130,7 +130,7 @@ struct SimHeap {
         if (!owns(p)) { ::free(p); return; }
         Block* b = findBase(p);
         if (!b) { foreignFrees++; return; }
-        if (watchFree && p == watchFree) { watchLeft = 0; for (size_t i = 0; i < watchSize && i < 4096; i++) if (watchPat != 0x25252525ULL && (unsigned char)b->base[i] == (unsigned char)(0x30 + ((watchPat * 7 + i * 13) % 64))) watchLeft++; watchSeen = true; watchFree = 0; }
+        if (watchFree && p == watchFree) { watchLeft = 0; for (size_t i = 0; i < watchSize; i++) { if (i == 4096 && watchSize > 4160) i = watchSize - 64; /* large blocks carry the pattern in their first 4096 and last 64 bytes */ if (watchPat != 0x25252525ULL && (unsigned char)b->base[i] == (unsigned char)(0x30 + ((watchPat * 7 + i * 13) % 64))) watchLeft++; } watchSeen = true; watchFree = 0; }
         if (dirty) memset(b->base, 0xDD, b->size);
         ASAN_POISON_MEMORY_REGION(b->base, b->size);
         b->live = false;
@@ -339,7 +339,7 @@ struct Engine : public vf::Engine {
                 else if (!faultFree) { o.kind = H_FAULT; o.a = (int64_t)w.below(4); o.b = o.a == 3 && w.chance(2, 3) ? 2 : (int64_t)w.below(3); }
                 else o.kind = H_QUERY;
             } else if (mis) {
-                if (x < 30) { o.kind = H_ALLOC; o.a = (int64_t)w.below((uint64_t)nSlots); o.b = (int64_t)w.below(3); o.c = w.chance(3, 4) ? w.range(0, 64) : w.range(0, 600); o.phase = (int)w.below(3); o.s = siteFile((int)w.below(N_SITES)); }
+                if (x < 30) { o.kind = H_ALLOC; o.a = (int64_t)w.below((uint64_t)nSlots); o.b = (int64_t)w.below(3); o.c = w.chance(3, 4) ? w.range(0, 64) : w.range(0, 600); if (w.chance(1, 15)) o.c = w.range(4000, 20000); o.phase = (int)w.below(3); o.s = siteFile((int)w.below(N_SITES)); }
                 else if (x < 55) { o.kind = H_FLIP; o.a = (int64_t)w.below((uint64_t)nSlots); unsigned rg = (unsigned)w.below(10); o.b = rg < 3 ? 0 : (rg < 8 ? 1 : 2); o.c = (int64_t)w.below(600); o.d = (int64_t)w.below(256); if (w.chance(1, 8)) o.d = w.chance(1, 2) ? -1 : -2; }      // -1: the value the byte holds now, -2: the value the detector wrote there
                 else if (x < 78) { o.kind = H_FREE; o.a = (int64_t)w.below((uint64_t)nSlots); o.b = w.chance(2, 3) ? 0 : w.range(1, 3); o.c = w.chance(1, 3) ? w.range(1, 4) : 0; }
                 else if (x < 84) { o.kind = H_BADFREE; o.a = (int64_t)w.below(5); o.b = (int64_t)w.below(3); o.c = (int64_t)w.below(600); o.phase = (int)w.below(3) == 2 ? 2 : 0; }
